@@ -457,6 +457,19 @@ def parse_case(case, res):
                     res.violation("from_string|array value", "array of strings parsed differently from the scalars", case, None)
             except Exception as e:
                 res.violation("from_string|array raised", f"{type(e).__name__}: {e}", case, {"n": len(ss)})
+            # byte strings (NumPy 'S' arrays, as read from binary tables) are accepted input: same values
+            for form, arg in (("bytes", ss[0][0].encode("ascii")), ("array of bytes", np.array([g[0].encode("ascii") for g in ss])),
+                              ("np.str_", np.str_(ss[1][0]))):
+                res.transitions += 1
+                try:
+                    gv = ex(Phase.from_string(arg))
+                except Exception as e:
+                    res.violation(f"from_string|{form} raised", f"from_string({arg!r:.60}): {type(e).__name__}: {e}", case, {"form": form})
+                    continue
+                wants = [ss[0][1]] if form == "bytes" else ([ss[1][1]] if form == "np.str_" else [g[1] for g in ss])
+                if len(gv) != len(wants) or any(abs(a - w) > TOL for a, w in zip(gv, wants)):
+                    res.violation(f"from_string|{form} value", f"from_string({arg!r:.60}) parsed differently from the text", case, {"form": form})
+            res.hits["byte strings"] += 1
     res.sample({"sign": sg, "int": ip, "strings": len(strings), "example": strings[len(strings) // 2][0]}, 1)
 
 
@@ -694,7 +707,7 @@ def main(argv=None):
         PID, gen_cases=gen_cases, check_case=check_case, describe=describe,
         required_hits=["near-tie below double resolution", "exact tie", "array with exact ties", "array with sub-ulp near-ties",
                        "2-D reshapes", "zero or missing integer part", "zero or missing fractional part", "D exponent",
-                       "round trip", "precision < 2 with small fraction", "use, update in place, sort again", "transposed view", "unit keyword spellings", "ambient decimal context and print options", "dense fractions rendered", "format specifications with flags, fills and grouping", "array_equal / array_equiv / outer comparisons"],
+                       "round trip", "precision < 2 with small fraction", "use, update in place, sort again", "transposed view", "unit keyword spellings", "ambient decimal context and print options", "dense fractions rendered", "format specifications with flags, fills and grouping", "array_equal / array_equiv / outer comparisons", "byte strings"],
         assumptions=["for exact ties any index/permutation that realises the exact ordering is accepted",
                      "the imaginary flag of an exactly zero value is unconstrained", "format(p, '.0f') (no decimals) falls to the "
                      "Quantity formatter and is not constrained"],
